@@ -567,6 +567,7 @@ def run(ctx):
     ctx.floor("m6_bounds_checked", ctx.pick(1000, 20000))
     ctx.floor("judged:ragged.row_slice", ctx.pick(100, 2000))
     ctx.floor("judged:flat.slice", ctx.pick(50, 1000))
+    ctx.floor("blind_steps", ctx.pick(500, 10000))       # the un-decoded / lazy-view variants must actually have run
 
 
 def replay(ctx, w):
